@@ -40,8 +40,16 @@ def correspondence(ck, tier):
             n += 1
         rmax = float(rng.uniform(1, 50))
         r1, r2 = sorted(rng.uniform(0, rmax, size=2))
+        snap = int(rng.integers(0, 4))            # 1, 2, 3: put r1 / r2 / both exactly on grid points (0 included)
+        if snap:
+            grid = np.abs(quiet(StepAnalytical, n, rmax, 0.1 * rmax, 0.2 * rmax, symmetric=sym).r)
+            g1, g2 = sorted(float(v) for v in rng.choice(grid, size=2))
+            if snap & 1:
+                r1 = g1 if g1 < r2 else 0.0
+            if snap & 2 and g2 > r1:
+                r2 = g2
         A0 = float(rng.normal() * 3)
-        ck.count(("K.step", sym, n % 2), suite="K.closed-forms")
+        ck.count(("K.step", sym, n % 2, snap), suite="K.closed-forms")
         s = quiet(StepAnalytical, n, rmax, r1, r2, A0=A0, symmetric=sym)
         x = np.abs(s.r)
         want = A0 * 2 * (hc(r2 ** 2 - x ** 2) - hc(r1 ** 2 - x ** 2))
@@ -148,6 +156,10 @@ def oracle(ck, tier, deep):
             rep = dict(name=name, n=n, tol=tol, **kw)
             try:
                 s = quiet(analytical.SampleImage, n, name=name, **kw)
+                if rng.random() < 0.5:
+                    _ = s.abel                       # a first transform with the default tolerance must not fix later ones
+                    if tol > 4e-3:
+                        tol = 1e-3
                 ab = quiet(s.transform, tol)
             except Exception as e:
                 ck.violation(dict(site="SampleImage", clause="exception", name=name), rep, f"{type(e).__name__}: {e}")
